@@ -260,6 +260,7 @@ func runC08(c *Ctx, si interface{}) {
 				for rep := 0; rep < 2; rep++ {
 					e := entropyOp(NewTape(TapeSpec{Mode: "choice", Seed: mix(s.Seed, k, rep), Default: "random"}), *rec)
 					c.Eval(1)
+					c.T(e.tkey(), scheme, si)
 					if twin || fixed {
 						c.Distinct(fmt.Sprint(brief1(s.Words)), len(s.Words), ord.Visit, scheme, si)
 					}
